@@ -23,6 +23,9 @@ CONFIGS = {
     "thorough": [("MC_C07", "MC_C07_struct.cfg", {"MaxCalls": 3, "Lens": "{2}"}),
                  ("MC_C07", "MC_C07_struct.cfg", {"MaxCalls": 3, "MaxRefused": 2, "ObjSeqs": "c_SeqsRefuse", "Lens": "{2}"}),
                  ("MC_C07", "MC_C07_classes.cfg", {"MaxCalls": 3}),
+                 # large arrays (as in the quick tier)
+                 ("MC_C07", "MC_C07_classes.cfg", {"MaxCalls": 1, "MaxSessions": 1, "Lens": "{150001, 131072, 65536}",
+                                                   "ArrayClasses": "c_BigClasses", "ObjSeqs": "c_SeqsA"}),
                  ("MC_C07", "MC_C07_props.cfg", {"MaxCalls": 1}),
                  ("MC_C07", "MC_C07_props.cfg", {"MaxCalls": 2, "ValueClasses": "c_FewValueClasses"})],
 }
